@@ -376,6 +376,67 @@ def fft_route_origin(which):
     check('on-axis-term-at-the-origin-sample', approx(elem(out, m // 2, n // 2), elem(T, 0, 0), 1e-9))
 
 
+@harness('C04', 'bounded/origin-through-resampling-and-propagation', kind='bounded', variants=['polar-resampling', 'free-space-padding', 'mdft-shifted-origin'],
+         fuc=['prysm.coordinates.uniform_cart_to_polar', 'prysm._richdata.Slices.azavg', 'prysm.propagation.angular_spectrum',
+              'prysm.propagation.focus_fixed_sampling', 'prysm.fttools.MatrixDFTExecutor._setup_bases'])
+def bounded_origin_routes(which):
+    """BOUNDED (interpolation, library FFTs and float phases are outside the contract model): the origin sample n//2 through the
+    routines that resample or propagate a grid.  polar-resampling: a function of radius alone, centred on the origin sample of a
+    NON-square array, has the same profile along every azimuth of uniform_cart_to_polar and its azimuthal average is that profile.
+    free-space-padding: angular_spectrum at zero distance with an internal padding factor returns pad2d of the field (origin sample
+    to origin sample) for every parity.  mdft-shifted-origin: focus_fixed_sampling with a shift of (kx, ky) whole samples returns
+    the unshifted result moved by exactly those amounts on EACH axis, square or not."""
+    import numpy as np
+    rng = np.random.default_rng(Int('seed', 0, 10 ** 6))
+    if which == 'polar-resampling':
+        co = get('prysm.coordinates')
+        H, W = int(rng.integers(16, 40)), int(rng.integers(16, 40))
+        dx = float(rng.uniform(0.2, 2))
+        x = (np.arange(W) - W // 2) * dx
+        y = (np.arange(H) - H // 2) * dx
+        sig = 0.18 * min(H, W) * dx
+        xx, yy = np.meshgrid(x, y)
+        data = np.exp(-(xx ** 2 + yy ** 2) / (2 * sig ** 2))
+        rho, phi, pol = co.uniform_cart_to_polar(x, y, data)
+        inside = rho < 0.8 * min(abs(x[0]), abs(y[0]), x[-1], y[-1])          # radii sampled on every azimuth
+        prof = np.exp(-rho ** 2 / (2 * sig ** 2))
+        # linear interpolation of a smooth bump: error bounded by dx^2 |f''| / 8
+        tol = dx ** 2 / sig ** 2 / 4 * 1.2 + 1e-9          # bilinear: (dx^2/8)(|f_xx| + |f_yy|), |f''| <= 1/sig^2
+        check('same-radial-profile-on-every-azimuth', bool(np.all(abs(pol[:, inside] - prof[None, inside]) <= tol)))
+        check('value-at-zero-radius-is-the-origin-sample', bool(np.allclose(pol[:, 0], data[H // 2, W // 2])))
+    elif which == 'free-space-padding':
+        pr, ft = get('prysm.propagation'), get('prysm.fttools')
+        m, n = int(rng.integers(1, 18)), int(rng.integers(1, 18))
+        f = rng.standard_normal((m, n)) + 1j * rng.standard_normal((m, n))
+        wvl, dx = float(rng.uniform(0.4, 1)), float(rng.uniform(0.005, 0.05))
+        for Q in (2, 3, 1.5):
+            out = pr.angular_spectrum(f, wvl, dx, 0.0, Q=Q)
+            want = ft.pad2d(f, Q=Q)
+            check('zero-distance-returns-the-padded-field-Q=%s' % Q, out.shape == want.shape and bool(np.allclose(out, want, atol=1e-10)))
+            check('crop-undoes-it-Q=%s' % Q, bool(np.allclose(ft.crop_center(out, f.shape), f, atol=1e-10)))
+    else:
+        pr = get('prysm.propagation')
+        m, n = int(rng.integers(3, 9)), int(rng.integers(3, 9))
+        square = rng.random() < 0.6
+        M = int(rng.integers(8, 15))
+        N = M if square else int(rng.integers(8, 15))
+        if rng.random() < 0.5:
+            n = m
+        f = rng.standard_normal((m, n)) + 1j * rng.standard_normal((m, n))
+        dx, wvl, efl = float(rng.uniform(0.1, 1)), float(rng.uniform(0.4, 1)), float(rng.uniform(50, 300))
+        odx = wvl * efl / (max(m, n) * dx) / float(rng.uniform(2, 3))
+        kx, ky = int(rng.integers(-3, 4)), int(rng.integers(-3, 4))
+        a0 = pr.focus_fixed_sampling(f, dx, efl, wvl, odx, (M, N), shift=(0, 0), method='mdft')
+        a1 = pr.focus_fixed_sampling(f, dx, efl, wvl, odx, (M, N), shift=(kx * odx, ky * odx), method='mdft')
+        # either sign convention of "shift" is a pure translation by (ky, kx) samples: test both, require one, and require that
+        # the axes are not exchanged or summed
+        def moved(a, sy, sx):
+            ys, xs = slice(max(0, sy), min(M, M + sy)), slice(max(0, sx), min(N, N + sx))
+            yd, xd = slice(max(0, -sy), min(M, M - sy)), slice(max(0, -sx), min(N, N - sx))
+            return bool(np.allclose(abs(a1[yd, xd]), abs(a[ys, xs]), atol=1e-9 * abs(a).max()))
+        check('whole-sample-shift-is-a-translation-by-those-samples-on-each-axis', moved(a0, ky, kx) or moved(a0, -ky, -kx))
+
+
 @harness('C04', 'bounded/point-sources-in-floating-point', kind='bounded', variants=['autocrop', 'centroid'],
          fuc=['prysm.psf.autocrop', 'prysm.psf.centroid'])
 def bounded_point_sources(which):
